@@ -15,6 +15,7 @@ import (
 	"github.com/compose-spec/compose-go/v2/types"
 
 	"verifh/core"
+	"verifh/mapctl"
 )
 
 func init() { core.Register(c13{}) }
@@ -24,7 +25,7 @@ type c13 struct{}
 func (c13) ID() string    { return "C13" }
 func (c13) Level() string { return "model_checking" }
 func (c13) Rule() string {
-	return "scenario = (DAG up to isomorphism on <=4 services, direction, concurrency limit, root selection, error injection: plain errors, and on <=3 services errors that are or wrap context.Canceled / DeadlineExceeded); for each scenario every schedule of the instrumented traversal (caller, coordinator, one thread per visit; errgroup's own semaphore/WaitGroup/Once scheduled too) with iterative preemption bounding and every ready select branch, happens-before state caching; 8 monitors on every execution incl. ThreadSanitizer inside the schedule. state = distinct happens-before prefix expanded; transition = executed synchronisation step; distinct = scenarios explored"
+	return "scenario = (DAG up to isomorphism on <=4 services, direction, concurrency limit, root selection, error injection, optional dependencies on a disabled and a missing service under 4 map-iteration starts: plain errors, and on <=3 services errors that are or wrap context.Canceled / DeadlineExceeded); for each scenario every schedule of the instrumented traversal (caller, coordinator, one thread per visit; errgroup's own semaphore/WaitGroup/Once scheduled too) with iterative preemption bounding and every ready select branch, happens-before state caching; 8 monitors on every execution incl. ThreadSanitizer inside the schedule. state = distinct happens-before prefix expanded; transition = executed synchronisation step; distinct = scenarios explored"
 }
 func (c13) Env() []string { return []string{"GOMAXPROCS=1"} }
 func (c13) Assumptions() []string {
@@ -160,6 +161,8 @@ type c13scn struct {
 	// errKind: what a failing visitor returns: 0 a plain error, 1 an error wrapping context.Canceled, 2 one wrapping
 	// context.DeadlineExceeded, 3 context.Canceled itself (the walk's own context is never cancelled by the caller)
 	errKind int
+	// rot: every map iteration of the walk (building the graph from depends_on among them) starts at this position
+	rot uintptr
 }
 
 func (s c13scn) id() string {
@@ -172,6 +175,9 @@ func (s c13scn) id() string {
 	}
 	if s.errKind > 0 {
 		dir += fmt.Sprintf("+errkind%d", s.errKind)
+	}
+	if s.rot > 0 {
+		dir += fmt.Sprintf("+rot%d", s.rot)
 	}
 	return fmt.Sprintf("%s/%s/lim%d/roots%v/errs%v", s.d.key, dir, s.limit, s.roots, s.errs)
 }
@@ -371,6 +377,8 @@ func (s c13scn) setup() (func(), func(*vsched.Sched) string, *c13run, *types.Pro
 		opts = append(opts, graph.WithRootNodesAndDown(names))
 	}
 	body := func() {
+		mapctl.SetUniform(s.rot)
+		defer mapctl.SetUniform(0)
 		err := graph.InDependencyOrder(context.Background(), p, func(ctx context.Context, name string, _ types.ServiceConfig) error {
 			r.log.Add("enter", name, "")
 			vsched.Yield()
@@ -439,6 +447,10 @@ func c13scenarios(quick bool) []c13scn {
 				if n <= 3 {
 					// optional dependencies on a disabled and on a missing service: ignored by the walk, left in the project
 					out = append(out, c13scn{d: d, reverse: rev, limit: 0, optDeps: true})
+					// the same with the entries of every depends_on visited from another starting position
+					for rot := uintptr(1); rot <= 3; rot++ {
+						out = append(out, c13scn{d: d, reverse: rev, limit: 0, optDeps: true, rot: rot})
+					}
 					out = append(out, c13scn{d: d, reverse: rev, limit: 1, errs: []int{0}, optDeps: true})
 				}
 			}
